@@ -168,9 +168,13 @@ KF_MARK = ("C01-KF1 IN / NOT IN subquery that is not a top-level conjunct of WHE
 KF_CONST = ("C01-KF3 `e NOT IN (subquery)` / `e IN (subquery)` whose left operand has no column of the outer row (a literal such as "
             "NULL or 0): the equality is pushed into the subquery as a filter and the test becomes [NOT] EXISTS, so a NULL left "
             "operand or a NULL in the subquery no longer makes NOT IN unknown")
-KF_SORT = ("C01-KF4 ORDER BY [LIMIT] over an outer join whose null-supplying side is filtered to a constant (e.g. ON .. AND b.c0 = 0): "
-           "the sort key is treated as constant although the join pads it with NULLs; the SortExec is removed (rows come back "
-           "unordered, LIMIT keeps arbitrary rows)")
+KF_SORT = ("C01-KF4 ORDER BY [LIMIT] on a column that an equality with a literal fixes on the NULL-SUPPLYING side of an outer join "
+           "(ON .. AND b.c0 = 0, or a WHERE b.c0 = 0 directly on that input): the key is treated as constant although the join pads "
+           "it with NULLs, so it is removed from the ordering (with no other key the SortExec disappears: rows come back unordered "
+           "and LIMIT keeps arbitrary rows)")
+KF_GARBLE = ("C01-KF5 WHERE over `l RIGHT JOIN r` whose inputs have same-named columns: the physical filter pushdown moves the "
+             "whole predicate below the join onto r and resolves every reference to a column of l to the same-named column of r "
+             "(FilterExec `c1@0 IS NOT DISTINCT FROM c1@0` on r), so rows are filtered by the wrong predicate before the join")
 KF_SETALL = ("C01-KF2 INTERSECT ALL / EXCEPT ALL are planned as LeftSemi / LeftAnti joins: multiplicities are not "
              "min / monus (EXCEPT ALL removes every copy of a row that occurs in the right input, INTERSECT ALL keeps every "
              "left copy)")
@@ -276,12 +280,98 @@ def has_node(x, pred):
     return False
 
 
-def drop_sort(q):
+def conjuncts(p):
+    if isinstance(p, list) and p and p[0] == "and":
+        return conjuncts(p[1]) + conjuncts(p[2])
+    return [p]
+
+
+def eq_const_cols(p):
+    """columns i of the current row for which predicate p has a top-level conjunct `col i = <non-NULL literal>`"""
+    out = set()
+    for c in conjuncts(p):
+        if isinstance(c, list) and c and c[0] == "cmp" and c[1] == "=":
+            for a, b in ((c[2], c[3]), (c[3], c[2])):
+                if a[0] == "col" and a[1] == 0 and b[0] == "lit" and b[1] is not None:
+                    out.add(a[2])
+    return out
+
+
+def padded_const_cols(q):
+    """output columns of q that an equality with a literal (in the ON clause, or in a WHERE directly on that input) fixes
+    to a constant on the NULL-SUPPLYING side of an outer join -- so the join pads them with NULLs and they are NOT constant"""
+    k = q[0]
+    if k == "join":
+        kind, wl, wr, on, l, r = q[1:]
+        cc = set(padded_const_cols(l)) | {wl + i for i in padded_const_cols(r)}
+        sides = {"left": ["r"], "right": ["l"], "full": ["l", "r"]}.get(kind, [])
+        eqs = eq_const_cols(on) if kind != "cross" else set()
+        for sd in sides:
+            lo, hi, inp = (wl, wl + wr, r) if sd == "r" else (0, wl, l)
+            cc |= {i for i in eqs if lo <= i < hi}
+            if inp[0] == "filter":
+                cc |= {lo + i for i in eq_const_cols(inp[1])}
+        return cc
+    if k in ("filter", "distinctq", "sort", "limit"):
+        return padded_const_cols(q[-1])
+    if k == "semi":
+        return padded_const_cols(q[3])
+    if k == "project":
+        inner = padded_const_cols(q[2])
+        return {i for i, e in enumerate(q[1]) if e[0] == "col" and e[1] == 0 and e[2] in inner}
+    return set()
+
+
+def drop_const_sort_keys(q):
+    """KF4 rewrite: remove from the top-level ORDER BY exactly the keys that only mention padded 'constant' columns"""
     if q[0] == "sort":
-        return ["sort", [], q[2]]
-    if q[0] == "limit" and q[3][0] == "sort":
-        return ["limit", q[1], q[2], ["sort", [], q[3][2]]]
-    return None
+        keys, q0, wrap = q[1], q[2], lambda s: s
+    elif q[0] == "limit" and q[3][0] == "sort":
+        keys, q0, wrap = q[3][1], q[3][2], lambda s: ["limit", q[1], q[2], s]
+    else:
+        return None
+    cc = padded_const_cols(q0)
+    if not cc:
+        return None
+
+    def constant_key(e):
+        cols = []
+        has_node(e, lambda n: n[0] == "col" and cols.append(n) is None and False)
+        return bool(cols) and all(n[1] == 0 and n[2] in cc for n in cols) and not has_node(e, lambda n: n[0] in ("scalar", "exists", "insub"))
+    kept = [kk for kk in keys if not constant_key(kk[0])]
+    if len(kept) == len(keys):
+        return None
+    return wrap(["sort", kept, q0])
+
+
+def garble_right_join_filter(x, tables):
+    """KF5 rewrite: WHERE p over `l RIGHT JOIN r` (l, r base tables, whose columns have the same names c0, c1, ..) is applied
+    to r BEFORE the join, with every reference to a column of l replaced by the same-named column of r"""
+    if not isinstance(x, list) or not x:
+        return x
+    if x[0] == "filter" and x[2][0] == "join" and x[2][1] == "right" and x[2][5][0] == "table" and x[2][6][0] == "table":
+        p, (_, kind, wl, wr, on, l, r) = x[1], x[2]
+        ok = [True]
+
+        def remap(e, depth):
+            if not isinstance(e, list) or not e:
+                return e
+            if not isinstance(e[0], str):
+                return [remap(y, depth) for y in e]
+            if e[0] == "col":
+                if e[1] != depth:
+                    return e
+                j = e[2] if e[2] < wl else e[2] - wl
+                if j >= wr:
+                    ok[0] = False
+                return ["col", e[1], j]
+            if e[0] in ("scalar", "exists", "insub"):
+                ok[0] = False
+            return [remap(y, depth) if isinstance(y, list) else y for y in e]
+        p2 = remap(p, 0)
+        if ok[0]:
+            return ["join", kind, wl, wr, on, l, ["filter", p2, r]]
+    return [garble_right_join_filter(y, tables) if isinstance(y, list) else y for y in x]
 
 
 def known_variants(c):
@@ -289,7 +379,6 @@ def known_variants(c):
     q, tabs = c["q"], c["tables"]
     has_in = has_node(q, lambda n: n[0] == "insub")
     has_all = has_node(q, lambda n: n[0] == "setop" and n[1] in ("intersect", "except") and n[2] is True)
-    has_outer = has_node(q, lambda n: n[0] == "join" and n[1] in ("left", "right", "full"))
     has_const_in = has_node(q, lambda n: n[0] == "insub" and not has_node(n[2], lambda m: m[0] == "col"))
     out = []
     if has_in:
@@ -304,8 +393,12 @@ def known_variants(c):
         out.append((KF_MARK + " + " + KF_SETALL, dict(c, q=deviate(q, tabs, {"nonconj"}, True))))
     if has_const_in and has_all:
         out.append((KF_CONST + " + " + KF_SETALL, dict(c, q=deviate(q, tabs, {"const"}, True))))
-    if has_outer and drop_sort(q) is not None:
-        out.append((KF_SORT, dict(c, q=drop_sort(q))))
+    ds = drop_const_sort_keys(q)
+    if ds is not None:
+        out.append((KF_SORT, dict(c, q=ds)))
+    g = garble_right_join_filter(q, tabs)
+    if g != q:
+        out.append((KF_GARBLE, dict(c, q=g)))
     return out
 
 
